@@ -131,11 +131,14 @@ pub fn complete_path(word: &str, for_dir: bool) -> Vec<Completion> {
                         (_path, None)
                     };
                     let mut name = str::replace(name.as_str(), "//", "/");
-                    if path_sep.is_empty() && !is_env {
+                    // a word starting with an escaped `$` or `|` carries the
+                    // backslash tag: it is an unquoted word, not a quoted one
+                    let unquoted = path_sep.is_empty() || path_sep == "\\";
+                    if unquoted && !is_env {
                         name = tools::escape_path(&name);
                     }
                     let mut quoted = false;
-                    if !path_sep.is_empty() {
+                    if !unquoted {
                         name = tools::wrap_sep_string(&path_sep, &name);
                         quoted = true;
                     }
